@@ -236,13 +236,20 @@ class Canonicalizer:
         self.repo = repo
         self.max_depth = max_depth
         self.max_helper_stmts = max_helper_stmts
-        self.cache: Dict[int, ast.FunctionDef] = {}
+        self.cache: Dict[Tuple[int, bool], ast.FunctionDef] = {}
+        self._active: Set[int] = set()
+        self._helper_mode = 0
         self.notes: List[str] = []
 
     # ------------------------------------------------------------------ entry
     def canon(self, mod, fn: ast.FunctionDef) -> ast.FunctionDef:
-        if id(fn) in self.cache:
-            return self.cache[id(fn)]
+        ckey = (id(fn), bool(self._helper_mode))
+        if ckey in self.cache:
+            return self.cache[ckey]
+        if getattr(fn, "_canon_of", None) is not None:
+            return fn
+        top = id(fn) not in self._active
+        self._active.add(id(fn))
         new = clone(fn)
         new._canon_of = fn
         owner = getattr(fn, "_parent", None)
@@ -263,7 +270,10 @@ class Canonicalizer:
             set_parents(new, owner)
         ast.fix_missing_locations(new)
         set_parents(new, owner)
-        self.cache[id(fn)] = new
+        new._canon_of = fn
+        if top:
+            self._active.discard(id(fn))
+        self.cache[ckey] = new
         return new
 
     # ------------------------------------------------------------------ inlining
@@ -292,6 +302,18 @@ class Canonicalizer:
             if isinstance(f, ast.Attribute):
                 # self.helper(...) on a staticmethod: no self binding
                 pass
+        if id(h) not in self._active:
+            self._active.add(id(h))
+            try:
+                self._helper_mode += 1
+                hc = self.canon(mod, h)
+            finally:
+                self._helper_mode -= 1
+                self._active.discard(id(h))
+        else:
+            hc = h
+        raw_h = h
+        h = hc
         body = _docless(h.body)
         n_stmts = sum(1 for _ in _walk_no_nested(h) if isinstance(_, ast.stmt))
         if n_stmts > self.max_helper_stmts:
@@ -385,8 +407,11 @@ class Canonicalizer:
                     nm = f"_inl{k}_{p}"
                     rename[p] = nm
                     pre.append(ast.copy_location(ast.Assign(targets=[ast.Name(id=nm, ctx=ast.Store())], value=clone(a), lineno=st.lineno), st))
+            caller_names = _assigned_names(new) | {a.arg for a in new.args.args + new.args.kwonlyargs} | \
+                {n.id for n in _walk_no_nested(new) if isinstance(n, ast.Name)}
+            # names used by the statement being replaced do not count (the call's own target may be reused)
             for nm in assigned:
-                if nm not in bound:
+                if nm not in bound and nm in caller_names and not (isinstance(target, ast.Name) and target.id == nm):
                     rename[nm] = f"_inl{k}_{nm}"
             free_clash = {n.id for x in body for n in ast.walk(x) if isinstance(n, ast.Name) and n.id not in bound and n.id not in assigned} & _assigned_names(new)
             if free_clash:
@@ -501,12 +526,28 @@ class Canonicalizer:
                         if isinstance(t, ast.Name):
                             stores.setdefault(t.id, []).extend([t, t])
         cands = []
+        # tuple unpacking of a simple source:  a, b = src   ->  a := src[0], b := src[1]
+        for st in list(_walk_no_nested(new)):
+            if isinstance(st, ast.Assign) and len(st.targets) == 1 and isinstance(st.targets[0], ast.Tuple) and _simple(st.value) and not isinstance(st.value, ast.Tuple) \
+                    and all(isinstance(e, ast.Name) and len(stores.get(e.id, [])) == 1 and e.id not in params and (e.id not in self.protected or self._helper_mode) for e in st.targets[0].elts) \
+                    and self._stable(st.value, st, stores, params, new):
+                news = []
+                for i, e in enumerate(st.targets[0].elts):
+                    sub = ast.Subscript(value=clone(st.value), slice=ast.Constant(value=i), ctx=ast.Load())
+                    a = ast.Assign(targets=[ast.Name(id=e.id, ctx=ast.Store())], value=sub, lineno=st.lineno)
+                    ast.copy_location(a, st)
+                    ast.fix_missing_locations(a)
+                    news.append(a)
+                self._replace_stmt(new, st, news)
+                return True
         for st in _walk_no_nested(new):
             if isinstance(st, ast.Assign) and len(st.targets) == 1 and isinstance(st.targets[0], ast.Name):
                 x = st.targets[0].id
-                if x in params or len(stores.get(x, [])) != 1 or x in self.protected:
+                if x in params or len(stores.get(x, [])) != 1 or (x in self.protected and not self._helper_mode):
                     continue
-                if self._pure(st.value) and self._stable(st.value, st, stores, params, new):
+                n_loads = sum(1 for n in _walk_no_nested(new) if isinstance(n, ast.Name) and n.id == x and isinstance(n.ctx, ast.Load))
+                single_use_literal = n_loads == 1 and isinstance(st.value, (ast.List, ast.Dict, ast.Set, ast.Tuple)) and self._pure_literal(st.value)
+                if (self._pure(st.value) or single_use_literal) and self._stable(st.value, st, stores, params, new):
                     cands.append((x, st))
         if not cands:
             return False
@@ -543,6 +584,12 @@ class Canonicalizer:
             # one at a time (parents are stale now)
             return True
         return changed
+
+    def _pure_literal(self, e: ast.AST) -> bool:
+        for n in ast.walk(e):
+            if isinstance(n, (ast.Call, ast.Yield, ast.YieldFrom, ast.Await, ast.NamedExpr, ast.Lambda, ast.ListComp, ast.SetComp, ast.DictComp, ast.GeneratorExp)):
+                return False
+        return True
 
     def _pure(self, e: ast.AST) -> bool:
         for n in ast.walk(e):
